@@ -53,6 +53,9 @@ func runCodeGetter(c *core.Ctx) {
 		name := load.FnName(fn)
 		seenConst := map[int64]bool{}
 		nIf := 0
+		// the function whose frame is being read (the accessor, or a helper it hands the lookup to) and the
+		// parameter that holds the caller's error there
+		cur, ep := fn, fn.Params[0]
 		for _, ret := range sx.Returns(fn) {
 			if len(ret.Results) != 1 {
 				continue
@@ -80,7 +83,7 @@ func runCodeGetter(c *core.Ctx) {
 						fmt.Sprintf("the accessor returns the constant %d, which the contract does not name (only OK for nil and Unknown when no code is attached)", k))
 					if allowed && g.nilConst >= 0 {
 						// OK exactly on the nil edge, everything else on non-nil edges.
-						onNil := edgeIsNilParam(fn, from, fn.Params[0])
+						onNil := edgeIsNilParam(cur, from, ep)
 						if k == g.nilConst {
 							c.Check(onNil, name+": "+label+" edge", ret.Pos(), "returned only when err == nil", label+" is returned on an edge where the error is not known to be nil: a failing call would be reported as success")
 						} else {
@@ -90,13 +93,41 @@ func runCodeGetter(c *core.Ctx) {
 				case *ssa.Parameter:
 					ok := g.paramIdx >= 0 && g.paramIdx < len(fn.Params) && x == fn.Params[g.paramIdx]
 					c.Check(ok, name+": returned parameter "+x.Name(), ret.Pos(), "the caller's default", "a parameter other than the documented default is returned as the code")
+				case *ssa.Extract:
+					// a result of an unexported helper of the package that receives the caller's error: what the helper
+					// returns at that position (its found flag is the helper's business)
+					hc, _ := x.Tuple.(*ssa.Call)
+					var h *ssa.Function
+					if hc != nil {
+						h = sx.Callee(hc)
+					}
+					pj := -1
+					if h != nil && h.Blocks != nil && h.Pkg == fn.Pkg && !sx.Exported(h) {
+						for j, a := range hc.Call.Args {
+							if a == ssa.Value(ep) && j < len(h.Params) {
+								pj = j
+							}
+						}
+					}
+					if pj < 0 || d > 3 {
+						c.Fail(name+": returned value "+describeVal(v), ret.Pos(), "the accessor returns a value that is neither a contract constant, the default, nor the code field found in the chain ("+fmt.Sprintf("%T", v)+"): codes are computed from the error in a way the contract does not describe")
+						return
+					}
+					saveCur, saveEP := cur, ep
+					cur, ep = h, h.Params[pj]
+					for _, hr := range sx.Returns(h) {
+						if x.Index < len(hr.Results) {
+							visit(hr.Results[x.Index], hr.Block(), d+1)
+						}
+					}
+					cur, ep = saveCur, saveEP
 				case *ssa.TypeAssert:
 					ex, _ := x.X.(*ssa.Extract)
 					var call *ssa.Call
 					if ex != nil {
 						call, _ = ex.Tuple.(*ssa.Call)
 					}
-					ok := call != nil && ex.Index == 0 && sx.Callee(call) != nil && sx.Callee(call).Name() == "If" && len(call.Call.Args) == 2 && call.Call.Args[0] == ssa.Value(fn.Params[0])
+					ok := call != nil && ex.Index == 0 && sx.Callee(call) != nil && sx.Callee(call).Name() == "If" && len(call.Call.Args) == 2 && call.Call.Args[0] == ssa.Value(ep)
 					c.Check(ok, name+": returned found value", ret.Pos(), "the value markers.If found in the error given by the caller", "the returned code is asserted out of something other than markers.If(err, ...) applied to the caller's error")
 					if ok {
 						nIf++
@@ -116,7 +147,7 @@ func runCodeGetter(c *core.Ctx) {
 					}
 					wt := c.P.Named(g.pkg, g.wrapper)
 					ok := x.Op == token.MUL && fa != nil && ta != nil && wt != nil && types.Identical(sx.Deref(ta.AssertedType), wt) &&
-						isStructField(fa, wt, "code") && isChainPosition(ta.X, fn.Params[0], map[ssa.Value]bool{}, 0)
+						isStructField(fa, wt, "code") && isChainPosition(ta.X, ep, map[ssa.Value]bool{}, 0)
 					if ok && blockReachesItself(x.Block()) {
 						// the walk goes on after a match: a later (inner) layer's code would overwrite the outer one
 						ok = false
@@ -475,10 +506,28 @@ var rSecondaryAttach = &Rule{
 		}
 		// a returned value is acceptable when it is a fresh wrapper holding exactly the two parameters, or the result
 		// of WithSecondaryError applied to them
-		attached := func(fn *ssa.Function, v ssa.Value) (bool, string) {
+		var attached func(fn *ssa.Function, v ssa.Value) (bool, string)
+		depthA := 0
+		attached = func(fn *ssa.Function, v ssa.Value) (bool, string) {
 			if call, isCall := v.(*ssa.Call); isCall {
-				if sx.Callee(call) == with && fn != with && len(call.Call.Args) == 2 && call.Call.Args[0] == ssa.Value(fn.Params[0]) && call.Call.Args[1] == ssa.Value(fn.Params[1]) {
+				sameArgs := len(call.Call.Args) == 2 && call.Call.Args[0] == ssa.Value(fn.Params[0]) && call.Call.Args[1] == ssa.Value(fn.Params[1])
+				if sx.Callee(call) == with && fn != with && sameArgs {
 					return true, ""
+				}
+				// an unexported helper of the package that receives the two errors in order: judged by its own returns
+				if h := sx.Callee(call); h != nil && h != fn && h.Blocks != nil && h.Pkg == fn.Pkg && !sx.Exported(h) && len(h.Params) == 2 && sameArgs && depthA < 3 {
+					depthA++
+					defer func() { depthA-- }()
+					okAll, whyNot := true, ""
+					n := eachReturned(h, func(hv ssa.Value, _ token.Pos) {
+						if ok, why := attached(h, hv); !ok {
+							okAll, whyNot = false, "in "+load.FnName(h)+": "+why
+						}
+					})
+					if n == 0 {
+						return false, "no reachable return in " + load.FnName(h)
+					}
+					return okAll, whyNot
 				}
 				return false, "the returned value is " + describeVal(v)
 			}
@@ -2451,7 +2500,9 @@ var rIsMethod = &Rule{
 				continue
 			}
 			found := false
-			sx.EachInstr(fn, func(in ssa.Instruction) {
+			// (tryDelegateToIsMethod itself is not entered: its body is the probe)
+			isReg := regionOf(fn, p.Func("markers", "tryDelegateToIsMethod"))
+			isReg.each(func(in ssa.Instruction) {
 				call, ok := in.(*ssa.Call)
 				if !ok || sx.Callee(call) == nil || sx.Callee(call).Name() != "tryDelegateToIsMethod" {
 					return
@@ -2459,7 +2510,7 @@ var rIsMethod = &Rule{
 				found = true
 				n++
 				bad := ""
-				for _, l := range dominatingLits(call.Block()) {
+				for _, l := range isReg.lits(call.Block()) {
 					if dependsOnCall(l.V, "Comparable", map[ssa.Value]bool{}, 0) {
 						bad = "the comparability of the reference"
 					}
@@ -2522,7 +2573,9 @@ var rAsTarget = &Rule{
 		}
 		// reflect.Kind constants: Interface = 20, Ptr = 22
 		var ifaceRecv, implRecv, assignArg []ssa.Value
-		sx.EachInstr(fn, func(in ssa.Instruction) {
+		// (the chain walk may sit in a helper that receives the element type: a helper's parameter stands for its argument)
+		asReg := regionOf(fn)
+		asReg.each(func(in ssa.Instruction) {
 			switch x := in.(type) {
 			case *ssa.BinOp:
 				if x.Op != token.EQL && x.Op != token.NEQ {
@@ -2534,14 +2587,14 @@ var rAsTarget = &Rule{
 					return
 				}
 				if k == 20 {
-					ifaceRecv = append(ifaceRecv, call.Call.Value)
+					ifaceRecv = append(ifaceRecv, asReg.resolve(call.Call.Value))
 				}
 			case *ssa.Call:
 				if x.Call.IsInvoke() && x.Call.Method.Name() == "Implements" {
-					implRecv = append(implRecv, x.Call.Value)
+					implRecv = append(implRecv, asReg.resolve(x.Call.Value))
 				}
 				if x.Call.IsInvoke() && x.Call.Method.Name() == "AssignableTo" && len(x.Call.Args) == 1 {
-					assignArg = append(assignArg, x.Call.Args[0])
+					assignArg = append(assignArg, asReg.resolve(x.Call.Args[0]))
 				}
 			}
 		})
